@@ -105,19 +105,21 @@ pub open spec fn sinfo_unbonding(st: St) -> u64 { match get_sinfo(st) { Ok(Some(
 //@   after "Self::update_rewards(api, staking_storage, block, validator)?;" let ghost sm = staking_storage.view(); proof { lemma_upd_keeps_stake(st0, sm, validator@, block.time, arbitrary()); lemma_slash_init(sm, validator@, rem, true); lemma_slash_init(sm, validator@, rem, false); }
 //@   after "let remaining_percentage = Decimal::one() - percentage;" let ghost im = get_vinfo(sm, validator@)->Ok_0->0; let ghost stake0 = validator_info.stake;
 //@   loop 0 binder it
-//@   loop 0 invariant [C16.slash.wipe_inv,C14] sm_facts(st0, sm, validator@, block.time) && rem == remaining_percentage.atomics && rem <= dec_one() && slash_inv(sm, staking_storage.view(), it.seq().unref(), it.index@ as int, validator@, rem, true)
+//@   loop 0 invariant [C16.slash.wipe_inv,C14] sm_facts(st0, sm, validator@, block.time) && rem == remaining_percentage.atomics && rem <= dec_one() && slash_inv(sm, staking_storage.view(), it.seq().unref(), it.index@ as int, validator@, rem, true) && rem == 0 && validator_info.stake.u == 0
 //@   before "re:^\\s*STAKES\\.remove\\(staking_storage, \\(delegator, validator\\)\\);" let ghost st_b = staking_storage.view();
 //@   after "re:STAKES\\.remove\\(staking_storage, \\(delegator, validator\\)\\);" proof { assert(it.seq().unref()[it.index@ as int] == *delegator); lemma_slash_step_wipe(sm, st_b, staking_storage.view(), it.seq().unref(), it.index@ as int, validator@, rem); }
 //@   loop 1 binder it
-//@   loop 1 invariant [C16.slash.scale_inv,C14] sm_facts(st0, sm, validator@, block.time) && rem == remaining_percentage.atomics && rem <= dec_one() && slash_inv(sm, staking_storage.view(), it.seq().unref(), it.index@ as int, validator@, rem, false)
+//@   loop 1 invariant [C16.slash.scale_inv,C14] sm_facts(st0, sm, validator@, block.time) && rem == remaining_percentage.atomics && rem <= dec_one() && slash_inv(sm, staking_storage.view(), it.seq().unref(), it.index@ as int, validator@, rem, false) && rem != 0 && (fits(scaled_sum(sm, it.seq().unref(), it.index@ as int, validator@, rem)) ==> total.atomics == scaled_sum(sm, it.seq().unref(), it.index@ as int, validator@, rem))
 //@   replace_re? "\\|stake\\| -> AnyResult<_> \\{" => "|stake: Option<Shares>| -> (vx_o: AnyResult<Shares>) requires stake is Some, remaining_percentage.atomics <= dec_one() ensures vx_o matches Ok(o) && o.rewards == stake->0.rewards && o.stake.atomics == dmul(stake->0.stake.atomics as nat, remaining_percentage.atomics as nat) { broadcast use lemma_dmul_le_b;"
-//@   before "re:^\\s*STAKES\\.update\\(\\s*$" let ghost st_b = staking_storage.view(); proof { let d = *delegator; assert(it.seq().unref()[it.index@ as int] == d); assert(it.seq().unref().to_set().contains(d)); assert(has_staker(sm, validator@, d)); assert(has_shares(sm, d, validator@)); assert(st_b[k_stake(d, validator@)] == sm[k_stake(d, validator@)]); }
+//@   before "re:^\\s*(let \\w+ = )?STAKES\\.update\\(\\s*$" let ghost st_b = staking_storage.view(); proof { let d = *delegator; assert(it.seq().unref()[it.index@ as int] == d); assert(it.seq().unref().to_set().contains(d)); assert(has_staker(sm, validator@, d)); assert(has_shares(sm, d, validator@)); assert(st_b[k_stake(d, validator@)] == sm[k_stake(d, validator@)]); }
 //@   after "re:^\\s*\\)\\?;\\s*$" proof { let d = *delegator; let key = k_stake(d, validator@); let x0 = map_may_load::<Shares>(st_b, key)->Ok_0->0; let x1 = choose|x1: Shares| staking_storage.view() == st_b.insert(key, x1.ser()) && x1.rewards == x0.rewards && x1.stake.atomics == dmul(x0.stake.atomics as nat, rem); lemma_slash_step_scale(sm, st_b, staking_storage.view(), it.seq().unref(), it.index@ as int, validator@, rem, x1); }
-//@   before "re:^\\s*let mut unbonding_queue = UNBONDING_QUEUE\\s*$" let ghost st_l = staking_storage.view(); let ghost sq = choose|sq: Seq<Addr>| slash_inv(sm, st_l, sq, sq.len() as int, validator@, rem, validator_info.stake.u == 0); proof { lemma_slash_inv_reads(sm, st_l, sq, sq.len() as int, validator@, rem, validator_info.stake.u == 0); }
+//@   before "total += shares.stake;" let ghost total0 = total;
+//@   after "total += shares.stake;" proof { let d = *delegator; let i = it.index@ as int; let sq = it.seq().unref(); assert(sq[i] == d); assert(get_shares(sm, d, validator@) matches Ok(Some(x0)) && shares.stake.atomics == dmul(x0.stake.atomics as nat, rem)); assert(scaled_sum(sm, sq, i + 1, validator@, rem) == scaled_sum(sm, sq, i, validator@, rem) + dmul(share_atomics(sm, sq[i], validator@), rem)); }
+//@   before "re:^\\s*let mut unbonding_queue = UNBONDING_QUEUE\\s*$" let ghost st_l = staking_storage.view(); let ghost sq = choose|sq: Seq<Addr>| slash_inv(sm, st_l, sq, sq.len() as int, validator@, rem, rem == 0) && (rem != 0 ==> (fits(scaled_sum(sm, sq, sq.len() as int, validator@, rem)) ==> validator_info.stake.u == scaled_sum(sm, sq, sq.len() as int, validator@, rem) / dec_one())); proof { lemma_slash_inv_reads(sm, st_l, sq, sq.len() as int, validator@, rem, rem == 0); }
 //@   replace_re? "(?P<Q>\\w+)\\s*\\.iter_mut\\(\\)\\s*\\.filter\\(\\|(?P<X>\\w+)\\| (?P<C>[^\\n]*)\\)\\s*\\n\\s*\\.for_each\\(\\|(?P<Y>\\w+)\\| \\{(?P<B>.*?)\\}\\);" => "let ghost vx_q0 = \\g<Q>@; let mut vx_i: usize = 0;\n while vx_i < \\g<Q>.len()\n invariant /*VXCLAUSE C16.slash.queue_inv,C14*/ (vx_i <= \\g<Q>@.len() && \\g<Q>@.len() == vx_q0.len() && remaining_percentage.atomics <= dec_one() && (forall|i: int| 0 <= i < vx_i ==> #[trigger] \\g<Q>@[i] == slash_entry(vx_q0[i], validator@, remaining_percentage.atomics as nat)) && (forall|i: int| vx_i <= i < vx_q0.len() ==> #[trigger] \\g<Q>@[i] == vx_q0[i])),\n decreases \\g<Q>@.len() - vx_i,\n { broadcast use lemma_dmul_le_b; let \\g<X> = vx_deque_get_mut(&mut \\g<Q>, vx_i);\n if \\g<C> { let \\g<Y> = \\g<X>; \\g<B> }\n vx_i += 1; }"
 //@   replace_re? "for (?P<X>\\w+) in (?P<Q>\\w+)\\.iter_mut\\(\\) \\{(?P<B>.*?)\\n        \\}" => "let ghost vx_q0 = \\g<Q>@; let mut vx_i: usize = 0;\n while vx_i < \\g<Q>.len()\n invariant /*VXCLAUSE C16.slash.queue_inv,C14*/ (vx_i <= \\g<Q>@.len() && \\g<Q>@.len() == vx_q0.len() && remaining_percentage.atomics <= dec_one() && (forall|i: int| 0 <= i < vx_i ==> #[trigger] \\g<Q>@[i] == slash_entry(vx_q0[i], validator@, remaining_percentage.atomics as nat)) && (forall|i: int| vx_i <= i < vx_q0.len() ==> #[trigger] \\g<Q>@[i] == vx_q0[i])),\n decreases \\g<Q>@.len() - vx_i,\n { broadcast use lemma_dmul_le_b; let \\g<X> = vx_deque_get_mut(&mut \\g<Q>, vx_i);\n { \\g<B> }\n vx_i += 1; }"
 //@   replace_re? "if &(?P<U>\\w+)\\.validator == validator \\{" => "if *(&\\g<U>.validator) == *validator {"
-//@   before "re:^\\s*Ok\\(\\(\\)\\)\\s*$" proof { lemma_keys_disjoint(arbitrary(), validator@, validator@); assert(forall|k: Seq<u8>| k != k_queue() && k != k_vinfo(validator@) ==> #[trigger] same_at(staking_storage.view(), st_l, k)); lemma_slash_done(sm, st_l, staking_storage.view(), sq, validator@, rem, validator_info.stake.u == 0, unbonding_queue, validator_info); }
+//@   before "re:^\\s*Ok\\(\\(\\)\\)\\s*$" proof { lemma_keys_disjoint(arbitrary(), validator@, validator@); assert(forall|k: Seq<u8>| k != k_queue() && k != k_vinfo(validator@) ==> #[trigger] same_at(staking_storage.view(), st_l, k)); lemma_slash_done(sm, st_l, staking_storage.view(), sq, validator@, rem, rem == 0, unbonding_queue, validator_info); }
 //@ end
 //@ fn src/staking.rs :: StakeKeeper :: add_stake
 //@   ret r
